@@ -1,6 +1,6 @@
 """C02 - canonicalisation never changes what a URL means."""
 from ..rules.kindrules import k1, k2_k3, k_mix, k_req, k_roundtrip, make_kinds
-from ..rules import queryvar
+from ..rules import parser, queryvar
 from .C12 import roles
 from .common import quoter_audits, table_checks
 
@@ -13,7 +13,7 @@ def run(ctx):
         "on a validated escape, every other escape is re-emitted as the same byte, every raw byte is copied or %XX-escaped "
         "and no loop iteration drops a unit; (T5) '/' in paths and '& = + ;' in whole queries keep their escaped and "
         "literal forms; (T4) '%' is never literal, so non-requoting quoters never reinterpret supplied text; "
-        "(T-plus) space becomes '+' only in queries. Not decided: byte-exact preservation through the UTF-8 codec and "
+        "(B3) the splitter hands on substrings of the input, unrewritten; (T-plus) space becomes '+' only in queries. Not decided: byte-exact preservation through the UTF-8 codec and "
         "the rewind arithmetic.")
     pols, cfgs = quoter_audits(ctx, ch2=False)   # the dropped-surrogate clause (CH2) belongs to C01/C05
     table_checks(ctx, pols, cfgs, {"pct", "protect", "plus", "stable"})
@@ -23,4 +23,5 @@ def run(ctx):
     k_mix(ctx, K)
     k_roundtrip(ctx, K)
     queryvar.pair_quoting(ctx, roles(ctx.model))    # every key and value keeps its delimiter status: quoted exactly once
+    parser.split_url_verbatim(ctx, positions=(1, 2, 3, 4))   # the text that is encoded is the text that was supplied
     k1(ctx, K, only={"_url.URL.join", "_url.URL.with_name", "_url.URL.with_suffix", "_url.URL._with_raw_name", "_url.URL._make_child", "_url.URL.parent"})
